@@ -83,7 +83,13 @@ pub fn row_for(fe: &FrontEnd) -> Option<Row> {
     Some(match (fe.class, fe.lang) {
         (Class::Comment, Some(lang)) => match lang {
             "rust" => Row { prefix: "", suffix: "", separator: "static ZZQSEP: i32 = 0;", indentable: true, segs: c_like("static ZZQX: i32 = 1;", "static ZZQS: &str = \"zzqstring é😀 zzqword\";", Some("/// {}"), true) },
-            "typescript" | "typescriptreact" | "javascript" | "javascriptreact" => Row { prefix: "", suffix: "", separator: "let zzqsep = 0;", indentable: true, segs: c_like("let zzqx = 1;", "let zzqs = \"zzqstring é😀 zzqword\";", Some("/** {} */"), true) },
+            "typescript" | "typescriptreact" | "javascript" | "javascriptreact" => {
+                let mut segs = c_like("let zzqx = 1;", "let zzqs = \"zzqstring é😀 zzqword\";", Some("/** {} */"), true);
+                // inline doc tags: their contents are not prose, also behind an ordinary brace pair
+                segs.push(seg("doc-comment-with-inline-tag", Kind::Prose, "/** {} {@link ZzqFoo} {} */", true));
+                segs.push(seg("doc-comment-with-brace-then-inline-tag", Kind::Prose, "/** {} { } {@link ZzqFoo} {} */", true));
+                Row { prefix: "", suffix: "", separator: "let zzqsep = 0;", indentable: true, segs }
+            }
             "go" => {
                 let mut segs = c_like("var zzqx = 1", "var zzqs = \"zzqstring é😀 zzqword\"", None, true);
                 // a compiler directive followed by documentation in the same comment block
@@ -94,7 +100,12 @@ pub fn row_for(fe: &FrontEnd) -> Option<Row> {
             "c" | "cpp" => Row { prefix: "", suffix: "", separator: sep_c, indentable: true, segs: c_like("int zzqx = 1;", "const char* zzqs = \"zzqstring é😀 zzqword\";", Some("/** {} */"), true) },
             "swift" => Row { prefix: "", suffix: "", separator: "let zzqsep = 0", indentable: true, segs: c_like("let zzqx = 1", "let zzqs = \"zzqstring é😀 zzqword\"", Some("/// {}"), true) },
             "csharp" => Row { prefix: "", suffix: "", separator: "int zzqsep = 0;", indentable: true, segs: c_like("int zzqx = 1;", "string zzqs = \"zzqstring é😀 zzqword\";", Some("/// {}"), true) },
-            "java" => Row { prefix: "", suffix: "", separator: "class ZzqSep { int zzqsep = 0; }", indentable: true, segs: c_like("class ZzqA { int zzqx = 1; }", "class ZzqB { String zzqs = \"zzqstring é😀 zzqword\"; }", Some("/** {} */"), true) },
+            "java" => {
+                let mut segs = c_like("class ZzqA { int zzqx = 1; }", "class ZzqB { String zzqs = \"zzqstring é😀 zzqword\"; }", Some("/** {} */"), true);
+                segs.push(seg("doc-comment-with-inline-tag", Kind::Prose, "/** {} {@link ZzqFoo} {} */", true));
+                segs.push(seg("doc-comment-with-brace-then-inline-tag", Kind::Prose, "/** {} { } {@link ZzqFoo} {} */", true));
+                Row { prefix: "", suffix: "", separator: "class ZzqSep { int zzqsep = 0; }", indentable: true, segs }
+            }
             "php" => Row { prefix: "<?php\n", suffix: "", separator: "$zzqsep = 0;", indentable: true, segs: c_like("$zzqx = 1;", "$zzqs = \"zzqstring é😀 zzqword\";", Some("/** {} */"), true) },
             "dart" => Row { prefix: "", suffix: "", separator: "var zzqsep = 0;", indentable: true, segs: c_like("var zzqx = 1;", "var zzqs = \"zzqstring é😀 zzqword\";", Some("/// {}"), true) },
             "scala" => Row { prefix: "", suffix: "", separator: "val zzqsep = 0", indentable: true, segs: c_like("val zzqx = 1", "val zzqs = \"zzqstring é😀 zzqword\"", Some("/** {} */"), true) },
